@@ -99,6 +99,17 @@ def verify_get_crss(run, core):
             elif exc is None:
                 reject_ok = False
                 bad.append((ph, fb, got))
+    # the returned array is the caller's: modifying it must not change what later calls return (no shared table row)
+    for (ph, fb), want in O.CRSS.items():
+        try:
+            a = f(ph, fb)
+            a[...] = -7.0
+            again = tuple(float(v) for v in f(ph, fb))
+        except (ValueError, TypeError):  # a read-only result cannot be modified at all: fine
+            continue
+        if again != tuple(float(v) for v in want):
+            table_ok = False
+            bad.append((ph, fb, "changed after the caller modified an earlier result", again))
     return table_ok, reject_ok, bad
 
 
